@@ -176,24 +176,24 @@ Proof.
 Qed.
 
 (* ---------- makeupDiff ---------- *)
-Definition mstep (osz : N) (old : vol) (d : idxlog) (F : files) (k : N) : files :=
-  match idx_get d k with Some e => makeup_one osz old F e | None => F end.
+Definition mstep (old : vol) (d : idxlog) (F : files) (k : N) : files :=
+  match idx_get d k with Some e => makeup_one old F e | None => F end.
 
-Lemma makeup_unfold : forall osz ord F n1 s2,
-  makeup osz ord F n1 s2 = fold_left (mstep osz (cv s2) (diff_entries n1 (cidx s2))) ord F.
+Lemma makeup_unfold : forall ord F n1 s2,
+  makeup ord F n1 s2 = fold_left (mstep (cv s2) (diff_entries n1 (cidx s2))) ord F.
 Proof. reflexivity. Qed.
 
 Definition is_upd (e : ientry) : bool := negb (ie_off e =? 0) && negb (ie_size e =? 0)%Z && size_valid (ie_size e).
 
-Lemma makeup_one_idx : forall osz old F e, exists o,
-  f_idx (makeup_one osz old F e) = {| ie_key := ie_key e; ie_off := o; ie_size := ie_size e |} :: f_idx F.
+Lemma makeup_one_idx : forall old F e, exists o,
+  f_idx (makeup_one old F e) = {| ie_key := ie_key e; ie_off := o; ie_size := ie_size e |} :: f_idx F.
 Proof.
   intros. unfold makeup_one. destruct (negb (ie_off e =? 0) && negb (ie_size e =? 0)%Z && size_valid (ie_size e)); eexists; reflexivity.
 Qed.
 
 (* the index part alone: no assumption on sizes or offsets *)
-Lemma makeup_idx : forall osz old d ord F k, NoDup ord ->
-  let F' := fold_left (mstep osz old d) ord F in
+Lemma makeup_idx : forall old d ord F k, NoDup ord ->
+  let F' := fold_left (mstep old d) ord F in
   match idx_get d k with
   | Some e => if in_dec N.eq_dec k ord
               then exists o, idx_get (f_idx F') k = Some {| ie_key := k; ie_off := o; ie_size := ie_size e |}
@@ -201,25 +201,25 @@ Lemma makeup_idx : forall osz old d ord F k, NoDup ord ->
   | None => idx_get (f_idx F') k = idx_get (f_idx F) k
   end.
 Proof.
-  intros osz old d ord. induction ord as [|k0 ord IH]; intros F k Hnd; simpl.
+  intros old d ord. induction ord as [|k0 ord IH]; intros F k Hnd; simpl.
   - destruct (idx_get d k); reflexivity.
-  - inversion Hnd as [|? ? Hk0 Hnd']; subst. specialize (IH (mstep osz old d F k0) k Hnd'). simpl in IH.
+  - inversion Hnd as [|? ? Hk0 Hnd']; subst. specialize (IH (mstep old d F k0) k Hnd'). simpl in IH.
     (* what the first step does to key k *)
     assert (Hstep : match idx_get d k with
                     | Some e => if N.eq_dec k0 k
-                                then exists o, idx_get (f_idx (mstep osz old d F k0)) k = Some {| ie_key := k; ie_off := o; ie_size := ie_size e |}
-                                else idx_get (f_idx (mstep osz old d F k0)) k = idx_get (f_idx F) k
-                    | None => idx_get (f_idx (mstep osz old d F k0)) k = idx_get (f_idx F) k
+                                then exists o, idx_get (f_idx (mstep old d F k0)) k = Some {| ie_key := k; ie_off := o; ie_size := ie_size e |}
+                                else idx_get (f_idx (mstep old d F k0)) k = idx_get (f_idx F) k
+                    | None => idx_get (f_idx (mstep old d F k0)) k = idx_get (f_idx F) k
                     end).
     { unfold mstep. destruct (idx_get d k) as [e|] eqn:G.
       - destruct (N.eq_dec k0 k) as [->|Hne].
-        + rewrite G. destruct (makeup_one_idx osz old F e) as [o Ho]. exists o. rewrite Ho. simpl.
+        + rewrite G. destruct (makeup_one_idx old F e) as [o Ho]. exists o. rewrite Ho. simpl.
           rewrite (idx_get_key _ _ _ G), N.eqb_refl. reflexivity.
         + destruct (idx_get d k0) as [e0|] eqn:G0; [|reflexivity].
-          destruct (makeup_one_idx osz old F e0) as [o Ho]. rewrite Ho. simpl.
+          destruct (makeup_one_idx old F e0) as [o Ho]. rewrite Ho. simpl.
           rewrite (idx_get_key _ _ _ G0). apply N.eqb_neq in Hne. rewrite Hne. reflexivity.
       - destruct (idx_get d k0) as [e0|] eqn:G0; [|reflexivity].
-        destruct (makeup_one_idx osz old F e0) as [o Ho]. rewrite Ho. simpl.
+        destruct (makeup_one_idx old F e0) as [o Ho]. rewrite Ho. simpl.
         rewrite (idx_get_key _ _ _ G0).
         destruct (k0 =? k) eqn:E; [apply N.eqb_eq in E; subst; congruence | reflexivity]. }
     destruct (idx_get d k) as [e|] eqn:G; [|rewrite IH; exact Hstep].
@@ -254,10 +254,10 @@ Proof.
   destruct (sorted_recs_bound _ _ _ Hs Hin) as [_ Hb]. pose proof (actual_size_pos (r_size r)). lia.
 Qed.
 
-Lemma makeup_one_finv : forall osz old F e, sorted_recs (f_recs F) (f_end F) -> f_end F mod 8 = 0 ->
-  ent_src old e -> finv F (makeup_one osz old F e) /\ f_end F < f_end (makeup_one osz old F e).
+Lemma makeup_one_finv : forall old F e, sorted_recs (f_recs F) (f_end F) -> f_end F mod 8 = 0 ->
+  ent_src old e -> finv F (makeup_one old F e) /\ f_end F < f_end (makeup_one old F e).
 Proof.
-  intros osz old F e Hs Hm Hsrc. unfold makeup_one. fold (is_upd e). destruct (is_upd e) eqn:U.
+  intros old F e Hs Hm Hsrc. unfold makeup_one. fold (is_upd e). destruct (is_upd e) eqn:U.
   - destruct (Hsrc U) as [r [Hf Hsz]]. rewrite Hf.
     assert (Hzn : Z.to_N (ie_size e) = r_size r) by (rewrite <- Hsz; apply N2Z.id).
     rewrite Hzn. pose proof (actual_size_pos (r_size r)). split; [|simpl; lia].
@@ -273,68 +273,52 @@ Proof.
     + intros off r0 H0. eapply find_rec_keep; eauto.
 Qed.
 
-Lemma mstep_finv : forall osz old d F k, sorted_recs (f_recs F) (f_end F) -> f_end F mod 8 = 0 ->
-  (forall k e, idx_get d k = Some e -> ent_src old e) -> finv F (mstep osz old d F k).
+Lemma mstep_finv : forall old d F k, sorted_recs (f_recs F) (f_end F) -> f_end F mod 8 = 0 ->
+  (forall k e, idx_get d k = Some e -> ent_src old e) -> finv F (mstep old d F k).
 Proof.
-  intros osz old d F k Hs Hm Hsrc. unfold mstep. destruct (idx_get d k) as [e|] eqn:G.
+  intros old d F k Hs Hm Hsrc. unfold mstep. destruct (idx_get d k) as [e|] eqn:G.
   - apply makeup_one_finv; eauto.
   - apply finv_refl; assumption.
 Qed.
 
-Lemma fold_finv : forall osz old d ord F, sorted_recs (f_recs F) (f_end F) -> f_end F mod 8 = 0 ->
-  (forall k e, idx_get d k = Some e -> ent_src old e) -> finv F (fold_left (mstep osz old d) ord F).
+Lemma fold_finv : forall old d ord F, sorted_recs (f_recs F) (f_end F) -> f_end F mod 8 = 0 ->
+  (forall k e, idx_get d k = Some e -> ent_src old e) -> finv F (fold_left (mstep old d) ord F).
 Proof.
-  intros osz old d. induction ord as [|k ord IH]; intros F Hs Hm Hsrc; simpl.
+  intros old d. induction ord as [|k ord IH]; intros F Hs Hm Hsrc; simpl.
   - apply finv_refl; assumption.
-  - pose proof (mstep_finv osz old d F k Hs Hm Hsrc) as H1.
+  - pose proof (mstep_finv old d F k Hs Hm Hsrc) as H1.
     eapply finv_trans; [exact H1|]. apply IH; [apply (fi_sorted _ _ H1) | apply (fi_mod8 _ _ H1) | exact Hsrc].
 Qed.
 
-Lemma patch_exact : forall osz new old, new mod 8 = 0 -> new < 34359738368 -> old < 34359738368 ->
-  patch osz new old = new.
-Proof.
-  intros osz new old Hm Hn Ho. unfold patch.
-  assert (H1 : new / 8 < 4294967296) by (apply N.div_lt_upper_bound; lia).
-  assert (H2 : old / 8 < 4294967296) by (apply N.div_lt_upper_bound; lia).
-  rewrite (N.mod_small _ _ H1). rewrite (N.div_small _ _ H2).
-  replace (if osz =? 5 then 0 mod 256 else 0) with 0 by (destruct (osz =? 5); reflexivity).
-  pose proof (N.div_mod new 8 ltac:(lia)) as Hd. lia.
-Qed.
-
 (* an updated key: its new entry points at a copy of the record the old entry pointed at *)
-Lemma makeup_upd : forall osz old d ord F k e r, NoDup ord ->
+Lemma makeup_upd : forall old d ord F k e r, NoDup ord ->
   sorted_recs (f_recs F) (f_end F) -> f_end F mod 8 = 0 ->
   (forall k e, idx_get d k = Some e -> ent_src old e) ->
-  (forall k e, idx_get d k = Some e -> ie_off e < 34359738368) ->
-  f_end (fold_left (mstep osz old d) ord F) <= 34359738368 ->
   In k ord -> idx_get d k = Some e -> is_upd e = true ->
   find_rec (recs old) (ie_off e) = Some r -> Z.of_N (r_size r) = ie_size e ->
-  exists noff r', idx_get (f_idx (fold_left (mstep osz old d) ord F)) k =
+  exists noff r', idx_get (f_idx (fold_left (mstep old d) ord F)) k =
                     Some {| ie_key := k; ie_off := noff; ie_size := ie_size e |} /\
-                  8 <= noff /\ find_rec (f_recs (fold_left (mstep osz old d) ord F)) noff = Some r' /\ pl r' = pl r.
+                  8 <= noff /\ find_rec (f_recs (fold_left (mstep old d) ord F)) noff = Some r' /\ pl r' = pl r.
 Proof.
-  intros osz old d. induction ord as [|k0 ord IH]; intros F k e r Hnd Hs Hm Hsrc Hoff Hend Hin G U Hf Hsz; [contradiction|].
+  intros old d. induction ord as [|k0 ord IH]; intros F k e r Hnd Hs Hm Hsrc Hin G U Hf Hsz; [contradiction|].
   simpl in *. inversion Hnd as [|? ? Hk0 Hnd']; subst.
-  pose proof (mstep_finv osz old d F k0 Hs Hm Hsrc) as H1.
-  pose proof (fold_finv osz old d ord _ (fi_sorted _ _ H1) (fi_mod8 _ _ H1) Hsrc) as H2.
+  pose proof (mstep_finv old d F k0 Hs Hm Hsrc) as H1.
+  pose proof (fold_finv old d ord _ (fi_sorted _ _ H1) (fi_mod8 _ _ H1) Hsrc) as H2.
   destruct Hin as [->|Hin].
   - (* this step makes up k *)
-    clear IH. set (F1 := mstep osz old d F k) in *.
+    clear IH. set (F1 := mstep old d F k) in *.
     set (nr := {| r_off := f_end F; r_size := r_size r; r_at := r_at r; r_n := r_n r |}).
     assert (E1 : F1 = {| f_recs := nr :: f_recs F;
                          f_end := f_end F + actual_size (r_size r);
-                         f_idx := {| ie_key := k; ie_off := patch osz (f_end F) (ie_off e); ie_size := ie_size e |} :: f_idx F |}).
+                         f_idx := {| ie_key := k; ie_off := f_end F; ie_size := ie_size e |} :: f_idx F |}).
     { unfold F1, mstep. rewrite G. unfold makeup_one. fold (is_upd e). rewrite U, Hf.
       rewrite (idx_get_key _ _ _ G).
       replace (Z.to_N (ie_size e)) with (r_size r) by (rewrite <- Hsz; symmetry; apply N2Z.id). reflexivity. }
-    pose proof (actual_size_pos (r_size r)) as Hp.
-    assert (Hlt : f_end F < 34359738368).
-    { pose proof (fi_ge _ _ H2) as Hge. rewrite E1 in Hge at 1. simpl in Hge. lia. }
     assert (Hidx : idx_get (f_idx F1) k = Some {| ie_key := k; ie_off := f_end F; ie_size := ie_size e |}).
-    { rewrite E1. simpl. rewrite N.eqb_refl. rewrite (patch_exact osz (f_end F) (ie_off e) Hm Hlt (Hoff _ _ G)). reflexivity. }
+    { rewrite E1. simpl. rewrite N.eqb_refl. reflexivity. }
     assert (Hrec : find_rec (f_recs F1) (f_end F) = Some nr).
     { rewrite E1. simpl. rewrite N.eqb_refl. reflexivity. }
-    pose proof (makeup_idx osz old d ord F1 k Hnd') as Hi. simpl in Hi. rewrite G in Hi.
+    pose proof (makeup_idx old d ord F1 k Hnd') as Hi. simpl in Hi. rewrite G in Hi.
     destruct (in_dec N.eq_dec k ord) as [Hx|_]; [contradiction|]. rewrite Hi.
     exists (f_end F), nr. split; [exact Hidx|].
     split; [eapply sorted_recs_end; eauto|]. split; [|reflexivity].
